@@ -1113,7 +1113,7 @@ class CSSSerializer:
                 dim = value.dimension or ''
                 if dim and dim != '%':
                     # a unit is a name
-                    dim = helper.ident(dim, hash_=True)
+                    dim = helper.ident(dim)
                 if value.value == int(value.value):
                     # cut off after . which is zero anyway
                     val = str(int(value.value))
